@@ -170,7 +170,7 @@ def scenario_direct(run, seed, idx, cImageD11, indexing):
         n = 100000 if run.tier == "thorough" else 30000
     if ng * n > 2.5e5 and idx % 41 != 5 and run.tier == "quick":
         n = int(NPEAKS[int(r.integers(3))])        # keep the quick tier inside its time budget
-    tol = float(r.choice([0.01, 0.05, 0.1, 0.25, 0.5]))
+    tol = float(r.choice([0.01, 0.05, 0.1, 0.25, 0.5, 0.7, 0.9]))   # 0.9: the default of filtergrain.py; the 3-D error reaches sqrt(3)/2
     noise = float(r.choice([0.0, 1e-3, 0.02, 0.1]))
     initk = INITS[int(r.integers(len(INITS)))]
     dinit = float(r.choice([2.0, 1.0]))            # fight_over_peaks starts from 2, assignlabels and the notebooks from 1
@@ -440,7 +440,7 @@ def scenario_indexer(run, seed, k, mods):
     cls = CLASSES[int(r.integers(4))]
     ng = int(r.choice([1, 2, 3, 5, 8]))
     n = int(r.choice([30, 400, 2000]))
-    tol = float(r.choice([0.02, 0.05, 0.1, 0.25]))
+    tol = float(r.choice([0.02, 0.05, 0.1, 0.25, 0.7]))
     noise = float(r.choice([0.0, 1e-3, 0.02]))
     cell, UBs = gen_grains(r, cls, ng)
     ubis = [np.ascontiguousarray(np.linalg.inv(u)) for u in UBs]
